@@ -70,7 +70,7 @@ theorem program_refines_bash_partial (fuel : Nat) (fs : List Cmd) (main : Cmd)
 /-- non-vacuity: a guarded program whose brush run terminates, with `set -e`, a subshell, `case`
 fall-through, `until`, `!` and a probe of `$?` -/
 example : let fs : List Cmd := [.seq (.cons (.leaf 5 [0]) (.cons (.ret none) .nil))]
-    let main : Cmd := .seq (.cons (.setE true)
+    let main : Cmd := .seq (.cons (.setOpt .errexit true)
       (.cons (.whileU true (.leaf 1 [1, 0])
         (.case (.cons true (.bang (.leaf 2 [0])) .fallThrough (.cons false (.call 0) .contTest
           (.cons true (.cont none) .exitCase .nil)))))
